@@ -421,6 +421,20 @@ func (g *gen) edits(r *hx.Rng, kind string, sd *suiteDef, signed map[string]inte
 		}
 	}
 
+	// a type that no context defines: a relative IRI, i.e. invalid RDF, which default verification refuses
+	add("addtype /", "must-reject", func(d map[string]interface{}) bool {
+		switch t := d["type"].(type) {
+		case []interface{}:
+			d["type"] = append(append([]interface{}{}, t...), "zz_UndefinedType")
+		case string:
+			d["type"] = []interface{}{t, "zz_UndefinedType"}
+		default:
+			return false
+		}
+
+		return true
+	})
+
 	// undefined property at the top level
 	add("undef /", "undef", func(d map[string]interface{}) bool { d["zz_undef"] = "u"; return true })
 	add("undefarr /", "undef", func(d map[string]interface{}) bool {
